@@ -7,13 +7,15 @@
    bytewise order on UTF-8).  Metadata.__lt__ belongs to C01: `metadata` is characterised as the
    duplicate-free image (w.r.t. Python ==, [meta_pyeq]) and is sorted for EVERY total order [mlt]
    under which the cells are sorted metadata-major (C13_metadata_sorted).
-   Month unit: [cell_lag UMonth] / [plen UMonth] are Calendar.lag_months, the integer value of
-   dev_lag_months on month-aligned dates (C12); C13_month_unit gives their closed forms for month ids
-   0..1571 (1970-01..2100-12), proved by kernel computation over that range.
+   Month unit: [cell_lag UMonth] / [plen UMonth] are Calendar.lag_months.  Tie to the source: this is the
+   value of the float-based dev_lag_months only where the C12 bridge theorems say so (month-aligned
+   dates, 1970-2100; before 1970 see known finding F10).  C13_month_unit gives the closed forms for
+   EVERY month of Python's date range (month ids >= MINID = -23628 = 0001-01; the period start must
+   have a previous day, MINID < a), from the unbounded axiom-free facts of Proofs/CalendarP.v.
    Equality of metadata is Python's == (1000 == 1000.0, True == 1, dict order irrelevant). *)
 From Coq Require Import ZArith List Bool Lia Sorted.
 From Bermuda Require Import Lib.Calendar Model.Base Model.Accessors Proofs.Accessors Proofs.AccessorsTax
-  Proofs.AccessorsCal.
+  Proofs.CalendarP Proofs.AccessorsCal.
 Import ListNotations.
 Open Scope Z_scope.
 
@@ -199,11 +201,13 @@ Theorem C13_nested : forall u t,
 Proof. exact taxonomy_nested. Qed.
 Print Assumptions C13_nested.
 
-(* month unit on month-aligned dates, month ids 0..1571 (1970-01 .. 2100-12) *)
-Theorem C13_month_unit : forall a b, 0 <= a <= 1571 -> 0 <= b <= 1571 ->
+(* month unit on month-aligned dates of any year >= 1 *)
+Theorem C13_month_unit : forall a b, MINID < a -> MINID <= b ->
   plen UMonth (month_start a, month_end b) = b - a + 1 /\
-  lag_months (month_end a) (month_end b) = b - a.
-Proof. intros a b Ha Hb. split; [apply plen_month_aligned|apply lag_months_ends]; assumption. Qed.
+  (MINID <= a -> lag_months (month_end a) (month_end b) = b - a).
+Proof.
+  intros a b Ha Hb. split; [apply plen_month_aligned; assumption|intros Ha'; apply lag_months_ends; assumption].
+Qed.
 Print Assumptions C13_month_unit.
 
 (* ---------------------------------------------------------------- resolutions *)
